@@ -54,16 +54,15 @@ end
 def padRight (op : Mat κ) (m : Nat) : Mat κ := Mat.kron op (Mat.identity m)
 
 mutual
-/-- `_subtree_as_matrix(node, opmap)` -/
+/-- `_subtree_as_matrix(node, opmap)`: a leaf is the empty product (the 1×1 identity) -/
 def TNode.asMatrix (opmap : OpMap κ) : TNode κ → Except Err (Mat κ)
-  | .mk _ children => childrenAsMatrix opmap children (Mat.zero 1 1)
+  | .mk _ [] => .ok (Mat.identity 1)
+  | .mk _ (c :: cs) => childrenAsMatrix opmap (c :: cs) (Mat.zero 1 1)
 /-- the `for edge in node.children` loop with accumulator `op_sum` -/
 def childrenAsMatrix (opmap : OpMap κ) : List (Int × κ × TNode κ) → Mat κ → Except Err (Mat κ)
   | [], opSum => .ok opSum
   | (oid, c, t) :: cs, opSum => do
-    let opSub ← match t with
-      | .mk _ [] => pure (Mat.identity 1)
-      | .mk q (e :: es) => TNode.asMatrix opmap (.mk q (e :: es))
+    let opSub ← TNode.asMatrix opmap t
     let m ← opmap.get oid
     let op := Mat.kron (Mat.scale c m) opSub
     -- subtrees can have different heights
